@@ -95,7 +95,7 @@ pub fn exec(line: &str) -> String {
             }
             compile_op(&text!(name), &srcs, true)
         }
-        ["gen", a] => {
+        ["gen" | "genx", a] => {
             // json_shape_build links the published json_shape 0.5.1: convert through serde
             // through the serde form: the harness does not name the JsonShape type the build crate links
             let s0 = shape!(a);
@@ -354,6 +354,8 @@ fn compile_op(name: &str, srcs: &[String], check: bool) -> String {
             let files = listing(&out_dir);
             if check && !files.is_empty() {
                 format!("violated: error `{}` left files {:?}", e.kind(), files)
+            } else if check && !srcs.is_empty() && JsonShape::from_sources(srcs).is_ok() {
+                format!("violated: error `{}` although inference accepts the sources", e.kind())
             } else {
                 "err".to_string()
             }
@@ -364,7 +366,9 @@ fn compile_op(name: &str, srcs: &[String], check: bool) -> String {
             let shape_json = shape.as_ref().map(|s| serde_json::to_string(s).unwrap());
             let linked = json_shape_build::verif_infer_json(srcs);
             let mut verdict = String::new();
-            if check {
+            if check && shape.is_none() {
+                verdict = "violated: compiled although inference rejects the sources".into();
+            } else if check {
                 let files = listing(&out_dir);
                 let content = std::fs::read_to_string(&expected_file);
                 if files != vec![format!("{name}.gen.shape.rs")] {
